@@ -135,6 +135,16 @@ def m_eval(it, code, g=None, l=None):
     m = PModule("<eval>")
     m.g = g if g is not None else {}
     it.event("eval", code.source)
+    if l is not None and l is not g:
+        # eval(code, globals, locals): names are looked up in locals, then globals; nested function scopes (generator expressions, lambdas) see the globals only
+        from ..interp import Env
+
+        if not isinstance(l, dict):
+            raise Unsupported("eval() with a locals mapping that is not a dict")
+        env = Env(None)
+        env.update(l)
+        env.eval_locals = True
+        return it.eval(code.tree.body, env, m)
     return it.eval(code.tree.body, m.g, m)
 
 
